@@ -1308,6 +1308,7 @@ STD_MODELS = [
     (r"^(?:std::result::)?Result::<.*>::map::<.*fn\(.*\) -> .* \{.*\}>$", ext_res_map),
     (r"^std::result::Result::<.*>::map_err::<.*\{closure@.*\}>$", ext_res_map_err),
     # ---- general fallbacks (spec-local models are matched first)
+    (r"^<(\{closure@[^}]*\}) as Fn(?:Mut|Once)?<\(.*\)>>::call(?:_mut|_once)?$", lambda e, m, a: e.call_fn(e.closure_fn(m.group(1)), [a[0]] + list(a[1]))),
     (r"^core::bool::<impl bool>::then::<.*>$", ext_bool_then),
     (r"^core::bool::<impl bool>::then_some::<.*>$", ext_bool_then_some),
     (r"^<(?:std::result::)?Result<.*> as Try>::branch$", ext_res_try_branch),
